@@ -138,6 +138,21 @@ struct Peer {
 	Belief c03_expect;
 };
 
+struct GInfo { // C15: what the manager has reported about a group
+	int pref = 0;
+	std::vector<int> socks;
+	int status = 0; // RTR_MGR_CLOSED
+	bool removed = false;
+};
+
+struct GPending { // C15: consequence that must be visible once the reporting socket thread moves on
+	int kind; // 1: groups less preferred than `pref` closed ; 2: group `expect` started
+	int task; // simulated task that made the report
+	int sock;
+	int pref;
+	int expect;
+};
+
 struct World {
 	const J &plan;
 	RunCtx &ctx;
@@ -160,6 +175,9 @@ struct World {
 	bool hostile = false; // C04 mode: contents oracle relaxed to the framing clause
 	std::string focus; // property the plan was generated for
 	int xid_next = 0;
+	std::vector<GInfo> ginfo;
+	std::vector<GPending> gpend;
+	bool oper_busy = false; // an operator call (stop/add/remove group) is in progress
 	// digests for metamorphic comparison
 	uint64_t dig_states = 0xcbf29ce484222325ull, dig_sent = 0xcbf29ce484222325ull;
 	World(const J &p, RunCtx &c) : plan(p), ctx(c), chunk(1), lat(1) {}
@@ -171,8 +189,8 @@ struct World {
 	{
 		if (!debug)
 			return;
-		if (ctx.notes.size() > 6000)
-			ctx.notes.erase(ctx.notes.begin(), ctx.notes.begin() + 3000);
+		if (ctx.notes.size() > 400000)
+			ctx.notes.erase(ctx.notes.begin(), ctx.notes.begin() + 200000);
 		char b[600];
 		int o = snprintf(b, sizeof(b), "[t=%llu.%03llu task=%d] ", (unsigned long long)(sim_now_ns() / SIM_NS), (unsigned long long)(sim_now_ns() / 1000000 % 1000), sim_self());
 		va_list ap;
